@@ -33,51 +33,60 @@ theorem get_set_tp (l : List Tp) (p m : Nat) (x tp : Tp) (hp : l[p]? = some tp) 
 structure CI (l : List Tp) (c : Comp) : Prop where
   le : c.completed ≤ c.members.length
   mem : ∀ (i m : Nat), c.members[i]? = some m → ∃ tp : Tp, l[m]? = some tp ∧ tp.early = false ∧
-      (i < c.completed → tp.st = .inCb ∨ tp.st = .done) ∧
+      (i < c.completed → tp.st = .inCb ∨ tp.st = .inCbN ∨ tp.st = .done) ∧
       (c.completed < i → tp.st = .notAdded) ∧
-      (i = c.completed → (tp.st = .notAdded ∨ tp.st = .adding ∨ tp.st = .added) ∧
+      (i = c.completed → (tp.st = .notAdded ∨ tp.st = .adding ∨ tp.st = .added ∨ tp.st = .inCbN) ∧
           (tp.st = .notAdded → c.completed = 0 ∧ c.pending = 0) ∧
           (tp.st ≠ .notAdded → c.pending = (c.members.length : Int) - c.completed))
   fin : c.completed = c.members.length → c.pending = 0
   stamps : ∀ (i m m' : Nat) (tp tp' : Tp), c.members[i]? = some m → c.members[i + 1]? = some m' →
       l[m]? = some tp → l[m']? = some tp' → tp'.addAt ≠ 0 → tp.cbAt ≠ 0 ∧ tp.cbAt < tp'.addAt
 
-/-- admissible changes of the state of a member that keep the position clauses -/
-def StRel (st st' : TpSt) : Prop := st' = st ∨ (st = .inCb ∧ st' = .done) ∨ (st = .adding ∧ st' = .added)
+/-- admissible changes of the state of a member that keep the position clauses: a leaf goes inCb → done,
+    any member adding → added, a nested compound added → inCbN (its termination is detected, nested, before its
+    parent is notified); inCbN → done is admissible only once the parent has been notified (`ci_mem_frame'`) -/
+def StRel (st st' : TpSt) : Prop :=
+  st' = st ∨ (st = .inCb ∧ st' = .done) ∨ (st = .adding ∧ st' = .added) ∨ (st = .added ∧ st' = .inCbN)
 
-/-- the position clauses survive `StRel` changes of the members' descriptors -/
+/-- the position clauses survive `StRel` changes of the members' descriptors, and inCbN → done below `completed` -/
 theorem ci_mem_frame {l l' : List Tp} {c : Comp} (h : CI l c)
-    (hex : ∀ m ∈ c.members, ∀ tp : Tp, l[m]? = some tp →
-           ∃ tp' : Tp, l'[m]? = some tp' ∧ StRel tp.st tp'.st ∧ tp'.early = tp.early) :
+    (hex : ∀ (i m : Nat), c.members[i]? = some m → ∀ tp : Tp, l[m]? = some tp →
+           ∃ tp' : Tp, l'[m]? = some tp' ∧ tp'.early = tp.early ∧
+             (StRel tp.st tp'.st ∨ (tp.st = .inCbN ∧ tp'.st = .done ∧ i < c.completed))) :
     ∀ (i m : Nat), c.members[i]? = some m → ∃ tp : Tp, l'[m]? = some tp ∧ tp.early = false ∧
-      (i < c.completed → tp.st = .inCb ∨ tp.st = .done) ∧
+      (i < c.completed → tp.st = .inCb ∨ tp.st = .inCbN ∨ tp.st = .done) ∧
       (c.completed < i → tp.st = .notAdded) ∧
-      (i = c.completed → (tp.st = .notAdded ∨ tp.st = .adding ∨ tp.st = .added) ∧
+      (i = c.completed → (tp.st = .notAdded ∨ tp.st = .adding ∨ tp.st = .added ∨ tp.st = .inCbN) ∧
           (tp.st = .notAdded → c.completed = 0 ∧ c.pending = 0) ∧
           (tp.st ≠ .notAdded → c.pending = (c.members.length : Int) - c.completed)) := by
   intro i m hm
   obtain ⟨tp, htp, h1, h2, h3, h4⟩ := h.mem i m hm
-  obtain ⟨tp', htp', hr, he⟩ := hex m (List.mem_of_getElem? hm) tp htp
+  obtain ⟨tp', htp', he, hr⟩ := hex i m hm tp htp
   refine ⟨tp', htp', by rw [he]; exact h1, ?_, ?_, ?_⟩
   · intro hi
-    rcases hr with e | ⟨_, e⟩ | ⟨e0, _⟩
+    rcases hr with (e | ⟨_, e⟩ | ⟨e0, _⟩ | ⟨e0, _⟩) | ⟨_, e, _⟩
     · rw [e]; exact h2 hi
-    · exact Or.inr e
-    · rcases h2 hi with e' | e' <;> rw [e0] at e' <;> cases e'
+    · exact Or.inr (Or.inr e)
+    · rcases h2 hi with e' | e' | e' <;> rw [e0] at e' <;> cases e'
+    · rcases h2 hi with e' | e' | e' <;> rw [e0] at e' <;> cases e'
+    · exact Or.inr (Or.inr e)
   · intro hi
     have hn := h3 hi
-    rcases hr with e | ⟨e0, _⟩ | ⟨e0, _⟩
+    rcases hr with (e | ⟨e0, _⟩ | ⟨e0, _⟩ | ⟨e0, _⟩) | ⟨e0, _, _⟩
     · rw [e]; exact hn
-    · rw [hn] at e0; cases e0
-    · rw [hn] at e0; cases e0
+    all_goals (rw [hn] at e0; cases e0)
   · intro hi
     obtain ⟨a1, a2, a3⟩ := h4 hi
-    rcases hr with e | ⟨e0, _⟩ | ⟨e0, e1⟩
+    rcases hr with (e | ⟨e0, _⟩ | ⟨e0, e1⟩ | ⟨e0, e1⟩) | ⟨_, _, hlt⟩
     · rw [e]; exact ⟨a1, a2, a3⟩
-    · rcases a1 with e' | e' | e' <;> rw [e0] at e' <;> cases e'
-    · refine ⟨Or.inr (Or.inr e1), ?_, ?_⟩
+    · rcases a1 with e' | e' | e' | e' <;> rw [e0] at e' <;> cases e'
+    · refine ⟨Or.inr (Or.inr (Or.inl e1)), ?_, ?_⟩
       · intro e'; rw [e1] at e'; cases e'
       · intro _; exact a3 (by rw [e0]; simp)
+    · refine ⟨Or.inr (Or.inr (Or.inr e1)), ?_, ?_⟩
+      · intro e'; rw [e1] at e'; cases e'
+      · intro _; exact a3 (by rw [e0]; simp)
+    · omega
 
 /-- the stamp clause survives when the members keep `addAt` and `cbAt` -/
 theorem ci_stamps_frame {l l' : List Tp} {c : Comp} (h : CI l c)
@@ -91,24 +100,28 @@ theorem ci_stamps_frame {l l' : List Tp} {c : Comp} (h : CI l c)
   have := h.stamps i m m' x y hm hm' hx hy (by rw [← e2]; exact hne)
   rw [e3, e2]; exact this
 
-/-- a context step that rewrites a descriptor outside the compound, or keeps state (up to inCb → done), flags and stamps -/
+/-- a context step that rewrites a descriptor outside the compound, or keeps state (up to inCb → done, or
+    inCbN → done below `completed`), flags and stamps -/
 theorem ci_set_frame {l l' : List Tp} {c : Comp} {p : Nat} {tp x : Tp} (h : CI l c) (htp : l[p]? = some tp)
     (hset : l' = l.set p x)
-    (hp : p ∉ c.members ∨ ((x.st = tp.st ∨ (tp.st = .inCb ∧ x.st = .done)) ∧ x.addAt = tp.addAt ∧ x.cbAt = tp.cbAt ∧ x.early = tp.early)) :
+    (hp : p ∉ c.members ∨ ((x.st = tp.st ∨ (tp.st = .inCb ∧ x.st = .done) ∨
+            (tp.st = .inCbN ∧ x.st = .done ∧ ∀ i, c.members[i]? = some p → i < c.completed)) ∧
+          x.addAt = tp.addAt ∧ x.cbAt = tp.cbAt ∧ x.early = tp.early)) :
     CI l' c := by
   refine ⟨h.le, ci_mem_frame h ?_, h.fin, ci_stamps_frame h ?_⟩
-  · intro m hm y hy
+  · intro i m hm y hy
     rw [hset, get_set_tp _ _ _ _ _ htp]
     by_cases hmp : m = p
     · rw [if_pos hmp]
       rcases hp with hp | hp
-      · exact absurd (hmp ▸ hm) hp
+      · exact absurd (hmp ▸ List.mem_of_getElem? hm) hp
       · subst hmp; rw [htp] at hy; cases hy
-        refine ⟨x, rfl, ?_, hp.2.2.2⟩
-        rcases hp.1 with e | e
-        · exact Or.inl e
-        · exact Or.inr (Or.inl e)
-    · rw [if_neg hmp]; exact ⟨y, hy, Or.inl rfl, rfl⟩
+        refine ⟨x, rfl, hp.2.2.2, ?_⟩
+        rcases hp.1 with e | e | ⟨e1, e2, e3⟩
+        · exact Or.inl (Or.inl e)
+        · exact Or.inl (Or.inr (Or.inl e))
+        · exact Or.inr ⟨e1, e2, e3 i hm⟩
+    · rw [if_neg hmp]; exact ⟨y, hy, rfl, Or.inl (Or.inl rfl)⟩
   · intro m hm tp' htp'
     rw [hset, get_set_tp _ _ _ _ _ htp] at htp'
     by_cases hmp : m = p
@@ -118,18 +131,59 @@ theorem ci_set_frame {l l' : List Tp} {c : Comp} {p : Nat} {tp x : Tp} (h : CI l
       · exact ⟨tp, hmp ▸ htp, hp.2.1, hp.2.2.1⟩
     · rw [if_neg hmp] at htp'; exact ⟨tp', htp', rfl, rfl⟩
 
+/-- the nested termination of a member that is itself a compound: added → inCbN, callback stamp := now -/
+theorem ci_set_ndet {l l' : List Tp} {c : Comp} {clk p : Nat} {tp x : Tp} (h : CI l c) (hS : ∀ tp ∈ l, tpOK clk tp)
+    (hnd : c.members.Nodup) (htp : l[p]? = some tp) (hset : l' = l.set p x)
+    (h1 : tp.st = .added) (h2 : x.st = .inCbN) (h3 : x.addAt = tp.addAt) (h5 : x.early = tp.early) : CI l' c := by
+  refine ⟨h.le, ci_mem_frame h ?_, h.fin, ?_⟩
+  · intro i m hm y hy
+    rw [hset, get_set_tp _ _ _ _ _ htp]
+    by_cases hmp : m = p
+    · rw [if_pos hmp]; subst hmp; rw [htp] at hy; cases hy
+      exact ⟨x, rfl, h5, Or.inl (Or.inr (Or.inr (Or.inr ⟨h1, h2⟩)))⟩
+    · rw [if_neg hmp]; exact ⟨y, hy, rfl, Or.inl (Or.inl rfl)⟩
+  · intro i m m' t1 t1' hm hm' ht1 ht1' hne
+    rw [hset, get_set_tp _ _ _ _ _ htp] at ht1 ht1'
+    by_cases hm'p : m' = p
+    · rw [if_pos hm'p] at ht1'; cases ht1'
+      have hmp : m ≠ p := by
+        intro e; rw [e] at hm; rw [hm'p] at hm'
+        have := nodup_get_inj hnd hm hm'; omega
+      rw [if_neg hmp] at ht1
+      rw [h3] at hne ⊢
+      exact h.stamps i m m' t1 tp hm hm' ht1 (hm'p ▸ htp) hne
+    · rw [if_neg hm'p] at ht1'
+      by_cases hmp : m = p
+      · rw [if_pos hmp] at ht1; cases ht1
+        -- the member after p has never been added: p is at position `completed`
+        obtain ⟨y, hy, _, b2, b3, b4⟩ := h.mem i p (hmp ▸ hm)
+        rw [htp] at hy; cases hy
+        have hic : i = c.completed := by
+          rcases Nat.lt_trichotomy i c.completed with hlt | heq | hgt
+          · rcases b2 hlt with e | e | e <;> rw [h1] at e <;> cases e
+          · exact heq
+          · have := b3 hgt; rw [h1] at this; cases this
+        obtain ⟨z, hz, _, _, c3, _⟩ := h.mem (i + 1) m' hm'
+        rw [ht1'] at hz; cases hz
+        have hok := hS t1' (List.mem_of_getElem? ht1')
+        have hzs := c3 (by omega)
+        simp only [tpOK, hzs] at hok
+        exact absurd (by omega) hne
+      · rw [if_neg hmp] at ht1
+        exact h.stamps i m m' t1 t1' hm hm' ht1 ht1' hne
+
 /-- the increment of add_taskpool on a member (adding → added, addAt := now) -/
 theorem ci_set_inc {l l' : List Tp} {c : Comp} {p : Nat} {tp x : Tp} (h : CI l c) {clk : Nat} (hS : ∀ tp ∈ l, tpOK clk tp) (hnd : c.members.Nodup)
     (htp : l[p]? = some tp) (hset : l' = l.set p x) (hpm : p ∈ c.members)
     (h1 : tp.st = .adding) (h2 : x.st = .added) (h3 : x.addAt = clk) (h4 : x.cbAt = tp.cbAt) (h5 : x.early = tp.early) :
     CI l' c := by
   refine ⟨h.le, ci_mem_frame h ?_, h.fin, ?_⟩
-  · intro m hm y hy
+  · intro i m hm y hy
     rw [hset, get_set_tp _ _ _ _ _ htp]
     by_cases hmp : m = p
     · rw [if_pos hmp]; subst hmp; rw [htp] at hy; cases hy
-      exact ⟨x, rfl, Or.inr (Or.inr ⟨h1, h2⟩), h5⟩
-    · rw [if_neg hmp]; exact ⟨y, hy, Or.inl rfl, rfl⟩
+      exact ⟨x, rfl, h5, Or.inl (Or.inr (Or.inr (Or.inl ⟨h1, h2⟩)))⟩
+    · rw [if_neg hmp]; exact ⟨y, hy, rfl, Or.inl (Or.inl rfl)⟩
   · intro i m m' t1 t1' hm hm' ht1 ht1' hne
     rw [hset, get_set_tp _ _ _ _ _ htp] at ht1 ht1'
     by_cases hm'p : m' = p
@@ -143,14 +197,14 @@ theorem ci_set_inc {l l' : List Tp} {c : Comp} {p : Nat} {tp x : Tp} (h : CI l c
       rw [htp] at hy; cases hy
       have hic : i + 1 = c.completed := by
         rcases Nat.lt_trichotomy (i + 1) c.completed with hlt | heq | hgt
-        · rcases b2 hlt with e | e <;> rw [h1] at e <;> cases e
+        · rcases b2 hlt with e | e | e <;> rw [h1] at e <;> cases e
         · exact heq
         · have := b3 hgt; rw [h1] at this; cases this
       obtain ⟨z, hz, _, c2, _, _⟩ := h.mem i m hm
       rw [ht1] at hz; cases hz
       have hok := hS t1 (List.mem_of_getElem? ht1)
       rw [h3]
-      rcases c2 (by omega) with e | e <;> simp only [tpOK, e] at hok <;> omega
+      rcases c2 (by omega) with e | e | e <;> simp only [tpOK, e] at hok <;> omega
     · rw [if_neg hm'p] at ht1'
       by_cases hmp : m = p
       · rw [if_pos hmp] at ht1; cases ht1
